@@ -1015,7 +1015,9 @@ def _meta_dict(meta: Optional[Metadata]) -> dict[str, str]:
             'status': meta.get('status', ''),
             'note': meta.get('note', ''),
         }
-        d = {key: val for key, val in d.items() if val}
+        # an attribute given with an empty value is still given
+        d = {key: val for key, val in d.items()
+             if val or (val == '' and key.rpartition(':')[2] in meta)}
         # this one requires a conversion, so do it separately
         if 'confidenceScore' in meta:
             d['confidenceScore'] = str(meta['confidenceScore'])
